@@ -1,9 +1,10 @@
 ------------------------------ MODULE MpfMachine ------------------------------
 (* MpfMachineCore on native integers (exhaustive small universes, scaled constants). *)
 EXTENDS ZNat
-CONSTANTS MB, ES, EB, PS, FAR, G, DX, Depth, Ops, GROW, WK
+CONSTANTS MB, ES, EB, PS, FAR, G, DX, PT, Depth, Ops, GROW, WK, NS, UNARY
 VARIABLES a, b, st, depth
 INSTANCE MpfMachineCore
 ESQuick == -2..2
+NSQuick == {-5, -3, -2, -1, 0, 1, 2, 3, 4, 5, 7}
 ESThorough == -3..3
 =============================================================================
